@@ -240,8 +240,8 @@ func namespaceRun(r *Rng, s *Scenario, ok CompileOK, flat bool) {
 		other := []string{"z:a", "y:a"}[di]
 		top.C = append(top.C, &NodeSpec{K: "e", N: "x:a", NS: "urn:x", A: [][2]string{{"id", "1"}}}, &NodeSpec{K: "e", N: "y:b", NS: "urn:y"},
 			&NodeSpec{K: "e", N: "x:a", NS: "urn:y"}, &NodeSpec{K: "e", N: other, NS: "urn:x", A: [][2]string{{"id", "2"}}})
-		s.Docs[di].NoNS = r.Chance(1, 2)
-		if r.Chance(2, 3) {
+		s.Docs[di].NoNS = r.Chance(2, 3)
+		if r.Chance(3, 4) {
 			DeclareNamespaces(&s.Docs[di])
 		}
 	}
@@ -373,7 +373,7 @@ func GenC04(seed, run uint64, ok CompileOK) *Scenario {
 	g.UseDocs(s.Docs)
 	g.StackPos = true
 	g.FocusFn = focus
-	nsRun := s.Cfg.NS && r.Chance(1, 2)
+	nsRun := s.Cfg.NS && r.Chance(2, 3)
 	if nsRun {
 		for len(s.Docs) < 2 {
 			s.Docs = append(s.Docs, GenDoc(r, 12))
@@ -995,7 +995,7 @@ func GenC05(seed, run uint64, ok CompileOK) *Scenario {
 			pat := &E{Op: "str", S: r.Pick(g.Patterns[:11])}
 			if longPats {
 				pat.S = LongPattern(r)
-			} else if r.Chance(1, 3) {
+			} else if r.Chance(1, 2) {
 				// a pattern only known at evaluation time: an attribute of the context
 				// node (different context nodes, different patterns at one call site)
 				pat = &E{Op: "fn", S: "string", Kids: []*E{{Op: "path", Kids: []*E{{Op: "step", S: "attribute", T: g.attrName(), Abbr: true}}}}}
